@@ -32,7 +32,7 @@ SPEC = {
                    "200); every run is what the exported Run does with its uploader: Run, then the deferred Close; thorough tier adds the sweep: kill uploader 1 after call k = 1..26 x every request answered "
                    "200 / 404 / 503 / not at all, then uploader 2 runs. After every step local/, upload/ (names, content classes, canonical report sums) and the "
                    "server log are compared with the model run on the same schedule; the C08 oracles are evaluated "
-                   "on the implementation's observations (among them lock_released_by_other: a lock file of upload/ "
+                   "on the implementation's observations (among them posted_not_verbatim: the body of a request is the content the run read from the report file; lock_released_by_other: a lock file of upload/ "
                    "disappears only by a step of the thread whose exclusive creation made it appear). distinct = distinct case lines, all non-trivial"),
         Suite(name="starts", harness="vh_upload", runner="uptok",
               model_deps=["theories/Model/Start.vo", "theories/Model/UploadStarts.vo"],
